@@ -235,10 +235,15 @@ def report_known(pid, what):
 
 
 def load_known_findings(pid=None):
+    items = []
     p = os.path.join(VERIF, "known_findings.json")
-    if not os.path.exists(p):
-        return []
-    items = json.load(open(p)).get("entries", [])
+    if os.path.exists(p):
+        items += json.load(open(p)).get("entries", [])
+    d = os.path.join(VERIF, "known_findings.d")
+    if os.path.isdir(d):
+        for f in sorted(os.listdir(d)):
+            if f.endswith(".json"):
+                items += json.load(open(os.path.join(d, f))).get("entries", [])
     return [e for e in items if (pid is None or e.get("property") == pid)]
 
 
